@@ -372,6 +372,14 @@ package core
 //@       (q.FilterExpression != "" ?
 //@           (KeyPart(t, q, pk) && matchSpec(t.Name, q.FilterExpression, "filter", dom(t.Data[pk]), vals(t.Data[pk]), dom(q.ExpressionAttributeValues), vals(q.ExpressionAttributeValues), dom(q.Aliases), vals(q.Aliases))) :
 //@           KeyPart(t, q, pk)))
+// C20 / C02: each expression of a request is evaluated under its own kind - the key condition as a key expression, the
+// filter as a filter, the write condition as a condition - with the request's table name, text, names and values
+// (the native interpreter keeps one registry per kind)
+//@ func (*Table).matchKey
+//@   inline
+//@   callsite[C20,C02] (*Table).interpreterMatch#1: arg.input.ExpressionType == interpreter.ExpressionTypeKey && arg.input.Expression == input.KeyConditionExpression && arg.input.TableName == t.Name && arg.input.Item == item && arg.input.Aliases == input.Aliases && arg.input.Attributes == input.ExpressionAttributeValues
+//@   callsite[C20,C02] (*Table).interpreterMatch#2: arg.input.ExpressionType == interpreter.ExpressionTypeFilter && arg.input.Expression == input.FilterExpression && arg.input.TableName == t.Name && arg.input.Item == item && arg.input.Aliases == input.Aliases && arg.input.Attributes == input.ExpressionAttributeValues
+//@   callsite[C20,C02] (*Table).interpreterMatch#3: arg.input.ExpressionType == interpreter.ExpressionTypeConditional && arg.input.Expression == *input.ConditionExpression && arg.input.TableName == t.Name && arg.input.Item == item && arg.input.Aliases == input.Aliases && arg.input.Attributes == input.ExpressionAttributeValues
 // CountIt: does the item count towards Limit (shouldCountItem applied to matchKey's expression type and verdict)
 //@ pred CountIt(t *Table, q QueryInput, pk string) :=
 //@   (q.ConditionExpression != nil && *q.ConditionExpression != "" ? false :
